@@ -189,6 +189,11 @@ impl<K: EnrKey> Builder<K> {
         self.add_value_rlp(ID_ENR_KEY, id_bytes.freeze());
 
         self.add_public_key(&key.public());
+        // The record is verified against the public key its content resolves to (see `Enr::sign`).
+        match K::enr_to_public(&self.content) {
+            Ok(public_key) if public_key.encode().as_ref() == key.public().encode().as_ref() => {}
+            _ => return Err(Error::SigningError),
+        }
         let rlp_content = self.rlp_content();
 
         let signature = self.signature(key)?;
